@@ -373,3 +373,346 @@ def correspond(ctx, tag, cases, results, budget_bytes=250000):
         bad += [batch[j] for j in idx]
     ctx.cov["traces_validated_against_impl"] = ctx.cov.get("traces_validated_against_impl", 0) + len(todo)
     return bad
+
+
+# --------------------------------------------------------------------------- mutations
+def ensure(ctx):
+    if not os.path.exists(os.path.join(vlib.BIN, HARNESS)):
+        ctx.build_harness()
+
+
+def small_convs(ctx, n, kinds=("grid-one", "grid", "mix", "unsupported-first"), max_bytes=700):
+    """A seeded choice of short conversations, spread over apis."""
+    convs = [c for c in gen(ctx) if c["kind"] in kinds and len(c["client"]) // 2 + len(c["server"]) // 2 <= max_bytes]
+    rng = vlib.random.Random(ctx.seed * 7919 + 11)
+    rng.shuffle(convs)
+    seen, out = set(), []
+    for c in convs:
+        api = c["exch"][0]["name"]
+        if api in seen and len(out) < len(convs) and len(seen) < 7:
+            continue
+        seen.add(api)
+        out.append(c)
+        if len(out) >= n:
+            break
+    for c in convs:
+        if len(out) >= n:
+            break
+        if c not in out:
+            out.append(c)
+    return out
+
+
+def raw_replay(c, what, how, **kw):
+    r = {"kind": "raw", "c": c["c"], "s": c["s"], "cc": c.get("cc", []), "sc": c.get("sc", []),
+         "tail": c.get("tail", 0), "order": c.get("order", "cs"), "what": what, "how": how}
+    r.update(kw)
+    return r
+
+
+def abnormal(r):
+    return r is None or r.get("co") not in ("eof", "ueof", "error") or r.get("so") not in ("eof", "ueof", "error")
+
+
+def report_K(ctx, tag, cases, results, sample=None):
+    """Correspondence on (a sample of) the cases; a difference is a broken obligation with its input."""
+    idx = list(range(len(cases)))
+    if sample is not None and len(idx) > sample:
+        rng = vlib.random.Random(ctx.seed + len(cases))
+        idx = sorted(rng.sample(idx, sample))
+    bad = correspond(ctx, tag, [cases[i] for i in idx], [results[i] for i in idx])
+    if bad:
+        i = idx[bad[0]]
+        ctx.broken.append("K_kafka_%s: model and implementation differ on %d of %d cases; first: client=%s server=%s tail=%d" % (
+            tag, len(bad), len(idx), cases[i]["c"][:120], cases[i]["s"][:120], cases[i].get("tail", 0)))
+        with open(os.path.join(ctx.work, "K_%s_first_difference.json" % tag), "w") as f:
+            json.dump({"case": cases[i], "observed": results[i]}, f)
+    return bad
+
+
+BIAS = [0x00, 0x01, 0x7f, 0x80, 0xff, 0xfe, 0x03, 0x12, 0x13, 0x14, 0x0f, 0x10]
+
+
+def corruptions(rng, conv, n):
+    out = []
+    cb, sb = bytearray.fromhex(conv["client"]), bytearray.fromhex(conv["server"])
+    for _ in range(n):
+        c, s = bytearray(cb), bytearray(sb)
+        for _ in range(rng.choice([1, 1, 1, 2, 4])):
+            side = c if (rng.random() < 0.6 and c) or not s else s
+            pos = rng.randrange(len(side))
+            side[pos] = rng.choice(BIAS) if rng.random() < 0.6 else rng.randrange(256)
+        out.append(case(c.hex(), s.hex(), tail=rng.choice([0, 0, 1, 2])))
+    return out
+
+
+def random_streams(rng, n):
+    out = []
+    for _ in range(n):
+        def one():
+            parts = []
+            for _ in range(rng.randint(0, 4)):
+                size = rng.choice([0, 4, 8, 10, 12, 20, 64, 1000000, 1000001, rng.randint(0, 70)])
+                body = bytearray()
+                body += struct.pack(">h", rng.choice([0, 1, 2, 3, 18, 19, 20, 12, 49, 50, -1, rng.randint(-3, 60)]))
+                body += struct.pack(">h", rng.choice([0, 1, 2, 3, 5, 7, 8, 9, 11, 12, -1, 32767]))
+                body += struct.pack(">i", rng.choice([0, 1, 7, -1, rng.randint(0, 1000)]))
+                body += struct.pack(">h", rng.choice([0, 0, 1, 3, -1, 32767]))
+                while len(body) < min(size, 80):
+                    body += bytes([rng.choice(BIAS) if rng.random() < 0.5 else rng.randrange(256)])
+                if rng.random() < 0.3:
+                    body = body[:rng.randint(0, len(body))]
+                parts.append(struct.pack(">I", size) + bytes(body))
+            return b"".join(parts)
+        out.append(case(one().hex(), one().hex(), tail=rng.choice([0, 0, 1, 2])))
+    return out
+
+
+# --------------------------------------------------------------------------- C01 (Kafka share)
+def c01(ctx):
+    """Never panics; what was completely received before the cut is still emitted."""
+    ensure(ctx)
+    rng = vlib.random.Random(ctx.seed * 31 + 1)
+    quick = ctx.tier == "quick"
+    convs = small_convs(ctx, 6 if quick else 40, kinds=("grid-one", "grid", "mix", "unsupported-first"), max_bytes=500 if quick else 1500)
+    cases, meta = [], []
+    for conv in convs:
+        nc, ns = len(conv["client"]) // 2, len(conv["server"]) // 2
+        for k in range(nc + 1):
+            cases.append(case(conv["client"][:2 * k], conv["server"], tail=rng.choice([0, 0, 1, 2])))
+            meta.append(("prefix-client", conv, k))
+        for k in range(ns + 1):
+            cases.append(case(conv["client"], conv["server"][:2 * k], tail=rng.choice([0, 0, 1, 2])))
+            meta.append(("prefix-server", conv, k))
+    for conv in convs:
+        for c in corruptions(rng, conv, 40 if quick else 400):
+            cases.append(c)
+            meta.append(("corruption", conv, None))
+    for c in random_streams(rng, 300 if quick else 5000):
+        cases.append(c)
+        meta.append(("random", None, None))
+    res = run(ctx, cases)
+    nviol = 0
+    for c, r, (kind, conv, k) in zip(cases, res, meta):
+        ctx.count_case(("kafka-c01", c["c"], c["s"], c["tail"]), kind != "random" or bool(r and r["items"]), "kafka-" + kind)
+        if abnormal(r):
+            if nviol < 3:
+                ctx.violation(raw_replay(c, "kafka Dissect did not return normally (%s/%s)" % ((r or {}).get("co"), (r or {}).get("so")),
+                                         "vh-kafka run", observed={k2: v for k2, v in (r or {}).items() if k2 != "items"}))
+            nviol += 1
+            continue
+        if kind.startswith("prefix") and conv["kind"] != "mix-reordered":
+            # exchanges whose request and response lie completely inside what was delivered
+            exp = []
+            for i in conv["resp_order"]:
+                ex = conv["exch"][i]
+                req_end = conv["req_at"][i] + ex["req_size"] + 4
+                resp_end = conv["resp_at"][i] + ex["resp_size"] + 4
+                if kind == "prefix-client" and req_end > k:
+                    break       # the server half stops at the response whose request was not received
+                if kind == "prefix-server" and resp_end > k:
+                    break
+                if ex["supported"]:
+                    exp.append(ex["corr"])
+            got = [it["corr"] for it in r["items"]]
+            if got[:len(exp)] != exp:
+                if nviol < 3:
+                    ctx.violation(raw_replay(c, "cut %s at byte %d: the completely received exchanges %r are not all reported (reported %r)" % (
+                        kind, k, exp, got), "vh-kafka run", conversation=conv["name"]))
+                nviol += 1
+    ctx.sample({"kind": "kafka-prefix", "conversation": convs[0]["name"], "cases": sum(1 for m in meta if m[0].startswith("prefix"))})
+    report_K(ctx, "c01", cases, res, sample=700 if quick else 6000)
+    return nviol
+
+
+# --------------------------------------------------------------------------- C02 (Kafka share)
+INT32_MAX = 2 ** 31 - 1
+
+
+def enc_uvarint(u):
+    out = bytearray()
+    while u >= 0x80:
+        out.append((u & 0x7f) | 0x80)
+        u >>= 7
+    out.append(u)
+    return bytes(out)
+
+
+def length_fields(conv):
+    """(side, absolute offset, width, encoding, remaining bytes of the message after the field, label)"""
+    out = []
+    for i, ex in enumerate(conv["exch"]):
+        for side, at, toks, size in (("c", conv["req_at"][i], ex["req"], ex["req_size"]), ("s", conv["resp_at"][i], ex["resp"], ex["resp_size"])):
+            stream_len = len(conv["client" if side == "c" else "server"]) // 2
+            out.append((side, at, 4, "fix", stream_len - at - 4, "%s.size" % ex["name"]))
+            if side == "c":
+                out.append((side, at + 12, 2, "fix", size - 10, "%s.clientIdLen" % ex["name"]))
+            for t in toks:
+                if t["k"] in ("s", "y", "n") and t["w"] in (2, 4):
+                    out.append((side, at + t["o"], t["w"], "fix", size + 4 - t["o"] - t["w"], ex["name"] + "." + t["p"]))
+                elif t["k"] == "v" or (t["k"] in ("s", "y", "n") and t["w"] not in (0, 2, 4)):
+                    enc = "var" if t["k"] in ("v",) or ".records[]" in t["p"] else "uvar"
+                    out.append((side, at + t["o"], t["w"], enc, size + 4 - t["o"] - t["w"], ex["name"] + "." + t["p"]))
+    return out
+
+
+def boundary_values(remaining):
+    return [0, 1, remaining - 1, remaining, remaining + 1, 65535, 65536, CAP, CAP + 1, INT32_MAX, -1, 0xFFFFFFFF]
+
+
+def substitute(conv, field, value):
+    side, off, w, enc, _, _ = field
+    data = bytearray.fromhex(conv["client" if side == "c" else "server"])
+    if enc == "fix":
+        new = (value % (1 << (8 * w))).to_bytes(w, "big")
+    elif enc == "var":
+        v = max(min(value, 2 ** 63 - 1), -2 ** 63)
+        new = enc_uvarint(((v << 1) ^ (v >> 63)) & (2 ** 64 - 1))
+    else:
+        new = enc_uvarint(value & (2 ** 64 - 1))
+    data[off:off + w] = new
+    return (data.hex(), conv["server"]) if side == "c" else (conv["client"], data.hex())
+
+
+ALLOC_BUDGET = lambda n: 64 * n + 96 * 1024 * 1024
+CPU_BUDGET_US = lambda n: 2 * n + 500000
+
+
+def c02(ctx):
+    """Cost linear in the bytes seen; terminates on every end-of-stream kind; matcher poll bounded."""
+    ensure(ctx)
+    rng = vlib.random.Random(ctx.seed * 37 + 2)
+    quick = ctx.tier == "quick"
+    convs = small_convs(ctx, 6 if quick else 40, kinds=("grid-one", "grid", "mix"), max_bytes=900 if quick else 3000)
+    cases, meta = [], []
+    for conv in convs:
+        fields = length_fields(conv)
+        if quick and len(fields) > 14:
+            fields = fields[:4] + rng.sample(fields[4:], 10)
+        for f in fields:
+            for v in boundary_values(f[4]):
+                c, s = substitute(conv, f, v)
+                for tail in (0, 1, 2):
+                    cases.append(case(c, s, tail=tail))
+                    meta.append((conv["name"], f[5], v, tail))
+    # a large message made of nested over-declared arrays and one of cap size
+    big = bytes.fromhex(convs[0]["client"])
+    for tail in (0, 1, 2):
+        nested = struct.pack(">ihhih", CAP, 3, 1, 9, 0) + (struct.pack(">i", 65535) + struct.pack(">h", 0)) * ((CAP - 10) // 6)
+        cases.append(case(nested.hex(), "", tail=tail))
+        meta.append(("nested-65535-arrays", "Metadata.topics", 65535, tail))
+        cases.append(case((struct.pack(">i", CAP) + big[4:]).hex(), "", tail=tail))
+        meta.append(("size-cap-short-stream", "size", CAP, tail))
+    res = []
+    B = 400
+    for k in range(0, len(cases), B):
+        res += run(ctx, cases[k:k + B], mode="cost", timeout=300, limit_kb=6 * 1024 * 1024)
+    nviol, worst = 0, (0, None)
+    for c, r, m in zip(cases, res, meta):
+        n = len(c["c"]) // 2 + len(c["s"]) // 2
+        ctx.count_case(("kafka-c02",) + m, True, "kafka-cost-tail%d" % m[3])
+        why = None
+        if abnormal(r):
+            why = "did not return normally (%s/%s)" % ((r or {}).get("co"), (r or {}).get("so"))
+        elif r["alloc"] > ALLOC_BUDGET(n):
+            why = "allocated %d bytes for %d bytes of input (budget %d)" % (r["alloc"], n, ALLOC_BUDGET(n))
+        elif r["cpu_us"] > CPU_BUDGET_US(n):
+            why = "used %d us of CPU for %d bytes of input (budget %d)" % (r["cpu_us"], n, CPU_BUDGET_US(n))
+        elif any(not s["ok"] for s in r.get("stages") or []):
+            why = "a later stage failed: %r" % [s for s in r["stages"] if not s["ok"]][:1]
+        if r and r.get("alloc", 0) > worst[0]:
+            worst = (r["alloc"], m)
+        if why:
+            if nviol < 3:
+                ctx.violation(raw_replay(c, "%s = %d, tail %d: %s" % (m[1], m[2], m[3], why), "vh-kafka cost", conversation=m[0]))
+            nviol += 1
+    ctx.sample({"kind": "kafka-cost", "cases": len(cases), "largest_alloc_bytes": worst[0], "at": list(worst[1]) if worst[1] else None})
+    # the same inputs through the model (outcome classes and items agree => the model's cost bound speaks about them)
+    res_run = run(ctx, cases[:-6], mode="run") if quick else run(ctx, cases[:-6], mode="run")
+    report_K(ctx, "c02", cases[:-6], res_run, sample=500 if quick else 4000)
+    return nviol
+
+
+# --------------------------------------------------------------------------- C08 (Kafka share)
+def observable(r):
+    return None if r is None else (r["co"], r["so"], json.dumps(r["items"], sort_keys=True), tuple(r["residue"]))
+
+
+def c08(ctx):
+    """Same bytes, different segmentation => identical items and outcome."""
+    ensure(ctx)
+    rng = vlib.random.Random(ctx.seed * 41 + 3)
+    quick = ctx.tier == "quick"
+    convs = small_convs(ctx, 8 if quick else 60, kinds=("grid-one", "grid", "mix", "mix-reordered", "unsupported-first"),
+                        max_bytes=450 if quick else 1200)
+    streams = [(c["name"], c["client"], c["server"], 0) for c in convs]
+    for conv in convs[:4 if quick else 20]:
+        for cc in corruptions(rng, conv, 2):
+            streams.append((conv["name"] + "+corruption", cc["c"], cc["s"], cc["tail"]))
+    cases, meta = [], []
+    for name, c, s, tail in streams:
+        nc, ns = len(c) // 2, len(s) // 2
+        base = len(cases)
+        cases.append(case(c, s, tail=tail))
+        meta.append((name, base, "whole"))
+        for k in range(1, nc):
+            cases.append(case(c, s, cc=[k], tail=tail))
+            meta.append((name, base, "two-piece"))
+        for k in range(1, ns):
+            cases.append(case(c, s, sc=[k], tail=tail))
+            meta.append((name, base, "two-piece"))
+        cases.append(case(c, s, cc=list(range(1, nc)), sc=list(range(1, ns)), tail=tail))
+        meta.append((name, base, "single-bytes"))
+        for _ in range(25 if quick else 80):
+            cc = sorted(rng.sample(range(1, max(nc, 2)), min(rng.randint(1, 12), max(nc - 1, 0)))) if nc > 1 else []
+            sc = sorted(rng.sample(range(1, max(ns, 2)), min(rng.randint(1, 12), max(ns - 1, 0)))) if ns > 1 else []
+            cases.append(case(c, s, cc=cc, sc=sc, tail=tail))
+            meta.append((name, base, "multi-piece"))
+    res = run(ctx, cases)
+    nviol = 0
+    for c, r, (name, base, kind) in zip(cases, res, meta):
+        ctx.count_case(("kafka-c08", c["c"], c["s"], tuple(c["cc"]), tuple(c["sc"])), kind != "whole", "kafka-split-" + kind)
+        if observable(r) != observable(res[base]):
+            if nviol < 3:
+                ctx.violation(raw_replay(c, "segmentation cc=%r sc=%r changes the result of %s" % (c["cc"][:8], c["sc"][:8], name),
+                                         "vh-kafka run", whole=raw_replay(cases[base], "", "")))
+            nviol += 1
+    ctx.sample({"kind": "kafka-split", "streams": len(streams), "cases": len(cases)})
+    return nviol
+
+
+# --------------------------------------------------------------------------- C11 (Kafka share)
+def c11(ctx):
+    """Every emitted item survives json round trip -> Analyze -> Summarize -> Represent."""
+    ensure(ctx)
+    rng = vlib.random.Random(ctx.seed * 43 + 4)
+    quick = ctx.tier == "quick"
+    convs = gen(ctx)
+    cases = [conv_case(c) for c in convs]
+    for conv in small_convs(ctx, 10 if quick else 60, max_bytes=1500):
+        cases += corruptions(rng, conv, 15 if quick else 100)
+    res = run(ctx, cases, mode="stage")
+    nviol, nitems = 0, 0
+    for c, r in zip(cases, res):
+        if r is None:
+            continue
+        for s in r.get("stages") or []:
+            nitems += 1
+            ctx.count_case(("kafka-c11", c["c"], c["s"], nitems), True, "kafka-item-stages")
+            if not s["ok"]:
+                if nviol < 3:
+                    ctx.violation(raw_replay(c, "an emitted kafka item fails in stage %s: %s" % (s.get("where"), s.get("panic")), "vh-kafka stage"))
+                nviol += 1
+    ctx.sample({"kind": "kafka-stages", "items": nitems})
+    return nviol
+
+
+def replay_raw(ctx, r):
+    """Re-run a raw replay case; prints what is observed now."""
+    ensure(ctx)
+    mode = r.get("how", "vh-kafka run").split()[-1]
+    c = case(r["c"], r["s"], r.get("cc", []), r.get("sc", []), r.get("tail", 0), r.get("order", "cs"))
+    res = run(ctx, [c], mode=mode if mode in ("run", "cost", "stage") else "run", limit_kb=6 * 1024 * 1024 if mode == "cost" else None)[0]
+    print("what failed:", r.get("what"))
+    print("observed now:", json.dumps(res)[:3000])
+    return res
